@@ -85,7 +85,7 @@ func propC25(c *Check) {
 		oki := false
 		if lp != nil {
 			for _, ins := range lp.Header.Instrs {
-				if p, ok := ins.(*ssa.Phi); ok && p.Comment == "i" {
+				if p, ok := ins.(*ssa.Phi); ok && phiIs(p, "i") {
 					oki = true
 					for k, ed := range p.Edges {
 						if lp.Header.Dominates(lp.Header.Preds[k]) {
